@@ -133,6 +133,31 @@ def _err_code(ex):
     return -3
 
 
+def _app_raise(kind, where):
+    """what the application's handler raises: an exception of its own, or - a well-behaved handler that hands the metadata it
+    was given to the library's own helpers - whatever THOSE raise on peer-supplied input"""
+    if kind == 'lib_mime':
+        from rsocket.extensions.composite_metadata import CompositeMetadata
+        cm = CompositeMetadata()
+        cm.parse(b'\xb0\x00\x00\x01A')          # a well-known MIME id (0x30) that is not assigned
+        raise RuntimeError('app: %s: the parser accepted an unassigned MIME id' % where)
+    if kind == 'lib_auth':
+        from rsocket.extensions.authentication_content import AuthenticationContent
+        ac = AuthenticationContent()
+        ac.parse(b'\xff' + b'token')              # a well-known authentication type id that is not assigned
+        raise RuntimeError('app: %s: the parser accepted an unassigned authentication type' % where)
+    if kind == 'lib_toolong':
+        from rsocket.extensions.helpers import composite
+        from rsocket.extensions.composite_metadata import CompositeMetadataItem
+        composite(CompositeMetadataItem(b'x/' + b'y' * 300, b'v'))   # answering with a MIME type name that is too long
+        raise RuntimeError('app: %s: a 302-byte MIME type name was accepted' % where)
+    if kind == 'nonstr':
+        raise KeyError(17, b'\xff')               # an exception whose arguments are not text
+    if kind == 'noargs':
+        raise Exception()
+    raise RuntimeError('app: %s raised' % where)
+
+
 def _avail(pol):
     """number of elements a library stream source will be able to produce (-1 for scripted / raising sources)"""
     if pol.get('src', 'scripted') == 'scripted' or pol.get('raise_at') is not None:
@@ -334,12 +359,12 @@ def make_app_classes():
             self.w.rec.log(self.ep, 'cb_request', kind='push', iid=pid, pid=pid, ml=len(payload.metadata or b''))
             pol = self.w.policy.get(pid, {})
             if pol.get('raise'):
-                raise RuntimeError('app: on_metadata_push raised')
+                _app_raise(pol['raise'], 'on_metadata_push')
 
         async def request_fire_and_forget(self, payload):
             iid = self._iid(payload, 'fnf')
             if self.w.policy.get(iid, {}).get('raise'):
-                raise RuntimeError('app: fnf raised')
+                _app_raise(self.w.policy[iid]['raise'], 'fnf')
 
         async def request_response(self, payload):
             iid = self._iid(payload, 'rr')
@@ -347,7 +372,7 @@ def make_app_classes():
             if pol.get('suspend'):
                 await asyncio.sleep(pol['suspend'])
             if pol.get('raise'):
-                raise RuntimeError('app: request_response raised')
+                _app_raise(pol['raise'], 'request_response')
             if pol.get('returns') == 'none':
                 return None                       # a handler that forgot to return its future
             if pol.get('returns') == 'wrong':
@@ -384,7 +409,7 @@ def make_app_classes():
             if pol.get('suspend'):
                 await asyncio.sleep(pol['suspend'])
             if pol.get('raise'):
-                raise RuntimeError('app: request_stream raised')
+                _app_raise(pol['raise'], 'request_stream')
             if pol.get('returns') == 'none':
                 return None
             if pol.get('returns') == 'wrong':
@@ -399,7 +424,7 @@ def make_app_classes():
             iid = self._iid(payload, 'channel')
             pol = self.w.policy.get(iid, {})
             if pol.get('raise'):
-                raise RuntimeError('app: request_channel raised')
+                _app_raise(pol['raise'], 'request_channel')
             if pol.get('returns') == 'none':
                 return None                       # not even a pair
             if pol.get('returns') == 'wrong':
@@ -655,6 +680,13 @@ class World:
 
     def respond(self, iid, spec, ep=None):
         it = self.interaction(iid)
+        subj = it.pop('resp_subject', None)
+        if subj is not None:            # (a handler behind the Rx / ReactiveX adapter: its observable emits now)
+            pid, p = self.payloads.make(*spec)
+            self.rec.log(ep or it.get('resp_ep', 's'), 'app_respond', iid=iid, pid=pid, dl=spec[0], ml=spec[1])
+            subj.on_next(p)
+            subj.on_completed()
+            return pid
         fut = it.get('resp_future')
         if fut is None or fut.done():
             return None
@@ -665,6 +697,11 @@ class World:
 
     def respond_error(self, iid, ep=None):
         it = self.interaction(iid)
+        subj = it.pop('resp_subject', None)
+        if subj is not None:
+            self.rec.log(ep or it.get('resp_ep', 's'), 'app_respond', iid=iid, pid=0, code=0x201)
+            subj.on_error(RuntimeError('app: response error'))
+            return True
         fut = it.get('resp_future')
         if fut is None or fut.done():
             return False
